@@ -239,7 +239,8 @@ let rec dump (v : value) : string = match v with
 
 let site_name (s : z) : string =
   let i = int_of_z s in
-  if i = int_of_z u_process then "Process"
+  if i < 0 then "Builtin:" ^ name_of (z_of_int (- i))
+  else if i = int_of_z u_process then "Process"
   else if i = int_of_z u_type then "Type"
   else if i = int_of_z u_builtin then "Builtin"
   else if i = int_of_z u_module then "Module"
